@@ -171,3 +171,125 @@ Section Movzx8.
     - destruct RD as [e RD]. exists e. rewrite (bind_err _ _ _ _ _ RD). reflexivity.
   Qed.
 End Movzx8.
+
+(* ---- MOVZX r32/r64, r/m16 ---- *)
+Definition rm16_shape (i : instr) (k : Z) : Prop :=
+  (i_op_kind i k = OK_Register /\ is_gpr16 (i_op_register i k) = true) \/
+  (i_op_kind i k = OK_Memory /\ wf_mem_instr i).
+
+Lemma gpr16_supported r : is_gpr16 r = true -> is_supported r = true.
+Proof. destruct r; intros H; try discriminate H; reflexivity. Qed.
+Lemma rf_read_range16 f r : is_gpr16 r = true -> 0 <= rf_read f r < 2 ^ 16.
+Proof.
+  intros H. unfold rf_read. destruct r; try discriminate H; cbn [to_qword view_lo view_width is_gpr8 is_gpr16 is_gpr32];
+    apply Z.mod_pos_bound; reflexivity.
+Qed.
+Lemma cast_u64_u16_id v : 0 <= v < 2 ^ 16 -> cast U64 U16 v = v.
+Proof. intros H. unfold cast, Bits.sem, enc, modulus; cbn [signed width]. apply Z.mod_small. exact H. Qed.
+Lemma cast_u16_u32_id v : 0 <= v < 2 ^ 16 -> cast U16 U32 v = v.
+Proof.
+  intros H. unfold cast, Bits.sem, enc, modulus; cbn [signed width]. apply Z.mod_small.
+  change (2 ^ 16) with 65536 in H. change (2 ^ 32) with 4294967296. lia.
+Qed.
+Lemma cast_u16_u64_id v : 0 <= v < 2 ^ 16 -> cast U16 U64 v = v.
+Proof.
+  intros H. unfold cast, Bits.sem, enc, modulus; cbn [signed width]. apply Z.mod_small.
+  change (2 ^ 16) with 65536 in H. change (2 ^ 64) with 18446744073709551616. lia.
+Qed.
+
+Section Movzx16.
+  Variables (c : cfg) (i : instr) (s : mstate).
+  Hypothesis Hwf : wf_regs s.
+  Hypothesis HI : Inv (mem s).
+  Hypothesis Hn : i_op_count i = 2.
+  Hypothesis K0 : i_op_kind i 0 = OK_Register.
+  Hypothesis Hs1 : rm16_shape i 1.
+
+  Lemma read_rm16 o0 :
+    instruction_operand c i 0 s = (Ok o0, s) ->
+    exists o1, instruction_operands_2 c i s = (Ok (o0, o1), s) /\
+      match read_op i 1 16 s with
+      | Some v => 0 <= v < 2 ^ 16 /\
+          (match o1 with
+           | OpMemory v_m => bind (mem_addr c v_m) (fun t1_v => mem_read_16 t1_v)
+           | OpRegister v_r => reg_read_16 c v_r
+           | _ => fail EFatal end) s = (Ok v, s)
+      | None => exists e,
+          (match o1 with
+           | OpMemory v_m => bind (mem_addr c v_m) (fun t1_v => mem_read_16 t1_v)
+           | OpRegister v_r => reg_read_16 c v_r
+           | _ => fail EFatal end) s = (Err e, s)
+      end.
+  Proof.
+    intros O0. unfold instruction_operands_2, read_op.
+    destruct Hs1 as [[K1 H1]|[K1 Hm]]; rewrite K1.
+    - assert (O1 : instruction_operand c i 1 s = (Ok (OpRegister (i_op_register i 1)), s))
+        by (apply operand_register; [rewrite Hn; reflexivity|exact K1|reflexivity|apply gpr16_supported; exact H1]).
+      eexists. split; [rewrite (bind_ok _ _ _ _ _ O0); rewrite (bind_ok _ _ _ _ _ O1); reflexivity|].
+      rewrite Z.mod_small by (apply rf_read_range16; exact H1).
+      split; [apply rf_read_range16; exact H1|]. apply reg_read_16_ok; assumption.
+    - destruct (operand_address c i 1 s Hwf Hm ltac:(rewrite Hn; reflexivity) K1) as (O1 & EA & _).
+      eexists. split; [rewrite (bind_ok _ _ _ _ _ O0); rewrite (bind_ok _ _ _ _ _ O1); reflexivity|].
+      unfold load. change (bytes_of 16) with 2%nat. change mem_read_16 with (mem_read_n 2).
+      destruct (mem_read_n_cases 2 (ea i s) s HI) as [(v & E & R)|(e & E)]; rewrite E.
+      + split; [exact R|]. rewrite (bind_ok _ _ _ _ _ EA). exact E.
+      + exists e. rewrite (bind_ok _ _ _ _ _ EA). exact E.
+  Qed.
+
+  Theorem movzx_r32_rm16_refines :
+    i_code i = C_Movzx_r32_rm16 -> is_gpr32 (i_op_register i 0) = true ->
+    match isa_exec (SMovzx 32 16) i s with
+    | IDone s' u => instr_movzx_r32_rm16 c i s = (Ok tt, s') /\ u = 0
+    | IFault FMem => exists e, instr_movzx_r32_rm16 c i s = (Err e, s)
+    | IFault _ => False
+    end.
+  Proof.
+    intros Ec H0. unfold instr_movzx_r32_rm16. rewrite Ec.
+    rewrite (bind_ok _ _ _ _ _ (dbg_code_ok c s _ eq_refl)).
+    assert (O0 : instruction_operand c i 0 s = (Ok (OpRegister (i_op_register i 0)), s))
+      by (apply operand_register; [rewrite Hn; reflexivity|exact K0|reflexivity|apply gpr32_supported; exact H0]).
+    destruct (read_rm16 _ O0) as (o1 & OP & RD).
+    cbn [isa_exec]. unfold calculate_r_rm_32_16. rewrite (bind_ok _ _ _ _ _ OP). cbv beta iota.
+    destruct (read_op i 1 16 s) as [v|].
+    - destruct RD as [Hv RD]. rewrite (bind_ok _ _ _ _ _ RD).
+      rewrite (bind_ok _ _ _ _ _ (eq_refl : lift (operand_to_reg (OpRegister (i_op_register i 0))) s = _)).
+      rewrite (bind_ok _ _ _ _ _ (reg_read_32_ok c _ s Hwf H0)).
+      rewrite (cast_u64_u16_id v Hv). rewrite (cast_u16_u32_id v Hv).
+      rewrite (bind_ok _ _ _ _ _ (eq_refl : lift (Ok v) s = _)).
+      rewrite (bind_ok _ _ _ _ _ (set_flags32_unaffected c _ s)).
+      change (Z.land FLAGS_UNAFFECTED NO_WRITEBACK =? 0) with true. cbv iota.
+      assert (Hv32 : 0 <= v < 2 ^ 32) by (change (2 ^ 16) with 65536 in Hv; change (2 ^ 32) with 4294967296; lia).
+      rewrite (cast_u32_u64_id v Hv32).
+      rewrite ?bind_assoc. rewrite (bind_ok _ _ _ _ _ (reg_write_32_ok c _ _ s H0 Hv32)).
+      unfold write_op. rewrite K0. cbn [opt_done]. split; reflexivity.
+    - destruct RD as [e RD]. exists e. rewrite (bind_err _ _ _ _ _ RD). reflexivity.
+  Qed.
+
+  Theorem movzx_r64_rm16_refines :
+    i_code i = C_Movzx_r64_rm16 -> is_gpr64 (i_op_register i 0) = true ->
+    match isa_exec (SMovzx 64 16) i s with
+    | IDone s' u => instr_movzx_r64_rm16 c i s = (Ok tt, s') /\ u = 0
+    | IFault FMem => exists e, instr_movzx_r64_rm16 c i s = (Err e, s)
+    | IFault _ => False
+    end.
+  Proof.
+    intros Ec H0. unfold instr_movzx_r64_rm16. rewrite Ec.
+    rewrite (bind_ok _ _ _ _ _ (dbg_code_ok c s _ eq_refl)).
+    assert (S0 : is_supported (i_op_register i 0) = true) by (destruct (i_op_register i 0); try discriminate H0; reflexivity).
+    assert (O0 : instruction_operand c i 0 s = (Ok (OpRegister (i_op_register i 0)), s))
+      by (apply operand_register; [rewrite Hn; reflexivity|exact K0|reflexivity|exact S0]).
+    destruct (read_rm16 _ O0) as (o1 & OP & RD).
+    cbn [isa_exec]. unfold calculate_r_rm_64_16. rewrite (bind_ok _ _ _ _ _ OP). cbv beta iota.
+    destruct (read_op i 1 16 s) as [v|].
+    - destruct RD as [Hv RD]. rewrite (bind_ok _ _ _ _ _ RD).
+      rewrite (bind_ok _ _ _ _ _ (eq_refl : lift (operand_to_reg (OpRegister (i_op_register i 0))) s = _)).
+      rewrite (bind_ok _ _ _ _ _ (reg_read_64_ok c _ s Hwf H0)).
+      rewrite (cast_u64_u16_id v Hv). rewrite (cast_u16_u64_id v Hv).
+      rewrite (bind_ok _ _ _ _ _ (eq_refl : lift (Ok v) s = _)).
+      rewrite (bind_ok _ _ _ _ _ (set_flags_unaffected c _ s)).
+      change (Z.land FLAGS_UNAFFECTED NO_WRITEBACK =? 0) with true. cbv iota.
+      rewrite ?bind_assoc. rewrite (bind_ok _ _ _ _ _ (reg_write_64_ok c _ _ s H0)).
+      unfold write_op. rewrite K0. cbn [opt_done]. split; reflexivity.
+    - destruct RD as [e RD]. exists e. rewrite (bind_err _ _ _ _ _ RD). reflexivity.
+  Qed.
+End Movzx16.
